@@ -2,8 +2,10 @@ package props
 
 import (
 	"fmt"
+	"io"
 	"math/rand"
 	"strings"
+	"testing/iotest"
 
 	"github.com/CloudyKit/jet/v6"
 	"verifh/internal/fw"
@@ -58,6 +60,32 @@ func (d delimCfg) opts() []jet.Option {
 		o = append(o, jet.WithCommentDelims(d.halfComment[0], d.halfComment[1]))
 	}
 	return o
+}
+
+// c03oddLoader: an in-memory loader whose readers use the freedoms the io.Reader contract gives them.
+type c03oddLoader struct {
+	jet.Loader
+	mode int
+}
+
+func (l c03oddLoader) Open(p string) (io.ReadCloser, error) {
+	rc, err := l.Loader.Open(p)
+	if err != nil {
+		return nil, err
+	}
+	var r io.Reader
+	switch l.mode {
+	case 0:
+		r = iotest.DataErrReader(rc)
+	case 1:
+		r = iotest.OneByteReader(rc)
+	default:
+		r = iotest.HalfReader(rc)
+	}
+	return struct {
+		io.Reader
+		io.Closer
+	}{r, rc}, nil
 }
 
 type segKind int
@@ -591,7 +619,17 @@ func c03run(c *fw.Ctx, idx int) {
 	files := map[string]string{"/t.jet": src, "/lib.jet": d.L + "block libblock()" + d.R + "LIB" + d.L + "end" + d.R}
 	vars := jet.VarMap{}
 	vars.Set("emptyList", []int{})
-	res := jx.Run(files, "/t.jet", vars, nil, d.opts()...)
+	var res jx.Res
+	if idx%3 == 1 {
+		// the loader's readers deliver the source in their own way (last bytes together with io.EOF, one byte at a time,
+		// half of what is asked for): all of it is the source
+		_, inner := jx.NewSet(files)
+		mode := (idx / 3) % 3
+		res = jx.RunSet(jet.NewSet(c03oddLoader{inner, mode}, d.opts()...), "/t.jet", vars, nil)
+		c.Count(fmt.Sprintf("loaded_through_reader_mode_%d", mode), 1)
+	} else {
+		res = jx.Run(files, "/t.jet", vars, nil, d.opts()...)
+	}
 	c.Count("executed", 1)
 	c.Count("class_"+class, 1)
 	c.Count("delims_"+d.Name, 1)
